@@ -359,13 +359,18 @@ func runC09(c *sim.Ctx) {
 			}
 		}
 		// long-lived handle that cached the pre-transaction state (one image in six)
-		if (k+cut)%6 == 0 {
+		// ... and, one in six, a handle that was opened before the transaction and has not
+		// read anything yet: its first read meets the crash image
+		if (k+cut)%6 == 0 || (k+cut)%6 == 3 {
+			warm := (k+cut)%6 == 0
 			base := crash.Files{DB: tr.BaseDB, Journal: tr.BaseJrnl, HasJ: tr.HasJrnl}
 			lp := writePair(llDir, base)
 			ld, err := sqlittleOpen(lp)
 			if err == nil {
-				ops.Run(ld, ops.Op{Kind: "select", Table: "t", Cols: []string{"id", "v", "n"}}, nil)
-				ops.Run(ld, ops.Op{Kind: "ixselect", Table: "t", Index: "tv", Cols: []string{"id"}}, nil)
+				if warm {
+					ops.Run(ld, ops.Op{Kind: "select", Table: "t", Cols: []string{"id", "v", "n"}}, nil)
+					ops.Run(ld, ops.Op{Kind: "ixselect", Table: "t", Index: "tv", Cols: []string{"id"}}, nil)
+				}
 				// the crash image replaces the files in place (same inodes)
 				if fh, err := os.OpenFile(lp, os.O_WRONLY, 0); err == nil {
 					fh.WriteAt(f.DB, 0)
@@ -377,9 +382,14 @@ func runC09(c *sim.Ctx) {
 				} else {
 					os.Remove(lp + "-journal")
 				}
-				judge("long-lived handle", func(op ops.Op) ops.Result { return ops.Run(ld, op, nil) })
+				if warm {
+					judge("long-lived handle", func(op ops.Op) ops.Result { return ops.Run(ld, op, nil) })
+					c.Probe("long-lived-handle-image")
+				} else {
+					judge("handle opened before the transaction, first read after the crash", func(op ops.Op) ops.Result { return ops.Run(ld, op, nil) })
+					c.Probe("idle-handle-image")
+				}
 				ld.Close()
-				c.Probe("long-lived-handle-image")
 			}
 		}
 		c.State(phase, journalHarmless, jm)
@@ -448,7 +458,7 @@ func init() {
 	sim.Register(&sim.Prop{
 		ID: "C09", Engine: "E-CRASH", Level: "fault_enumeration", Fn: runC09, NewEnv: NewEnv,
 		Runs: map[string]int{"quick": 32, "thorough": 480},
-		Rule: "per run: a scenario (page size 512/1024/4096/65536, journal mode DELETE/TRUNCATE/PERSIST incl. a second transaction over a persisted journal, cache_size 5 so dirty pages spill before commit, 1-3 transactions of updates/inserts/deletes/rollbacks; one scenario in five starts from a zero-length database whose first recorded transaction creates schema and rows) is executed by real SQLite under strace; the parsed trace must reproduce SQLite's final files byte for byte; then EVERY system-call boundary is a crash point and every write is additionally torn at each 512-byte boundary (first 6 in quick) and 3 drawn byte positions; each distinct (database, journal) pair is read through a fresh sqlittle handle, one in five also through a symbolic link in another directory, and, one in six, through a long-lived handle that cached the pre-transaction state; oracle: a copy is opened by real SQLite (own recovery + integrity_check) - sqlittle must fail or return exactly that content, a table that does not exist after SQLite's recovery must not be readable, and sqlittle may not fail when the journal is absent, empty or zero-headered (unless the recovered database is empty); evaluations = distinct crash images; non-trivial run = trace with >2 writes; states = (crash phase, journal harmless?, journal mode)",
+		Rule: "per run: a scenario (page size 512/1024/4096/65536, journal mode DELETE/TRUNCATE/PERSIST incl. a second transaction over a persisted journal, cache_size 5 so dirty pages spill before commit, 1-3 transactions of updates/inserts/deletes/rollbacks; one scenario in five starts from a zero-length database whose first recorded transaction creates schema and rows) is executed by real SQLite under strace; the parsed trace must reproduce SQLite's final files byte for byte; then EVERY system-call boundary is a crash point and every write is additionally torn at each 512-byte boundary (first 6 in quick) and 3 drawn byte positions; each distinct (database, journal) pair is read through a fresh sqlittle handle, one in five also through a symbolic link in another directory, and, one in six each, through a long-lived handle that cached the pre-transaction state and through a handle opened before the transaction whose first read comes after the crash; oracle: a copy is opened by real SQLite (own recovery + integrity_check) - sqlittle must fail or return exactly that content, a table that does not exist after SQLite's recovery must not be readable, and sqlittle may not fail when the journal is absent, empty or zero-headered (unless the recovered database is empty); evaluations = distinct crash images; non-trivial run = trace with >2 writes; states = (crash phase, journal harmless?, journal mode)",
 		Real: append([]string{"unix file pager + journal check on real files; crash images are produced from real SQLite's recorded system calls"}, realAll...),
 		Stub: []string{"the dying writer process is represented by its recorded system calls applied to file copies (process death loses no completed write; power loss is out of the property's quantifier)"},
 		Assumptions: []string{"strace output parsed for openat/pwrite64/write/ftruncate/fsync/fdatasync/unlink/fcntl/close on the database and its journal; fidelity is checked per trace", "images on which SQLite itself cannot recover a consistent database are counted as inconclusive"},
@@ -457,7 +467,7 @@ func init() {
 			if st["refused_images"] == 0 || st["read_equal_to_recovered"] == 0 {
 				return fmt.Errorf("refused=%d equal=%d", st["refused_images"], st["read_equal_to_recovered"])
 			}
-			for _, p := range []string{"long-lived-handle-image", "persisted-journal-in-base", "fresh-database-scenario", "empty-after-recovery-refused"} {
+			for _, p := range []string{"long-lived-handle-image", "idle-handle-image", "persisted-journal-in-base", "fresh-database-scenario", "empty-after-recovery-refused"} {
 				if st["probe."+p] == 0 {
 					return fmt.Errorf("reach probe %q is zero", p)
 				}
